@@ -572,6 +572,7 @@ def jobs_for(pid, tier):
         "C20": both("serde", ["serde"]) + both("setserde", ["serde"], mode="set"),
         "C06": shaped(core) + both("cursor", ["cursor"]) + both("efdc", ["entry", "fmt", "disjoint", "clone", "unchecked"], consts={"Vers": [0]})
                + shaped(setcore) + both("setclone", ["clone"], mode="set")
+               + shaped(both("bulk", ["bulk"], bigconsts={"MaxExtra": 1})) + shaped(both("setbulk", ["bulk"], mode="set", consts={"MaxExtra": 1}, bigconsts={"Vers": [0]}))
                + pairs("alg", ["algebra", "eq"], "set", qcaps[:2] if q else tcaps[:8]) + pairs("eqmap", ["eq"], "map", qcaps[:1] if q else tcaps[:4]),
         "C04": micro_inject + [dict(j, sweep="inject") for j in
                 both("core", ["core"]) + both("cef", ["cursor", "entry", "fmt", "unchecked"], consts={"Vers": [0]})
